@@ -1,9 +1,87 @@
-import HypatiaModel.Query
+import HypatiaProofs.Lemmas.QueryCompl
 
+/-!
+# C04  And/Or/Not compose query results as intersection, union and complement
+
+`applyQ cat q` is the model of `q._apply(names)` / `q.execute(optimize=False)` over a catalog
+whose comparators are answered at specification level (C01/C02/C03 justify that).
+Statements only; proofs of the lemmas are in `Lemmas/Query*.lean`.
+-/
 namespace Hyp.Query
+open Hyp
 
-/-- `Not._apply` is `negate()._apply` -/
-theorem c04_not_apply (cat : Catalog) (n : Nat) (q : Q) :
-    applyFuel cat (n + 1) (.not q) = applyFuel cat n (negate q) := rfl
+/-- `_apply` needs no evaluation budget: any budget above the tree size gives the same answer
+(the model's `Not` re-enters on the negated tree; this shows the recursion is well-founded). -/
+theorem c04_budget_irrelevant (cat : Catalog) (n : Nat) (q : Q) (h : size q < n) :
+    applyFuel cat n q = applyQ cat q := applyFuel_applyQ cat n q h
+
+/-- And = intersection of the operands' answers: any arity ≥ 1, operands of any index type,
+empty operands in any position (the early exit of `And._apply` changes nothing). -/
+theorem c04_and (cat : Catalog) (qs : List Q) (hne : qs ≠ []) (R : Q → IdSet)
+    (hR : ∀ q ∈ qs, applyQ cat q = .ok (R q)) :
+    ∃ r, applyQ cat (.and qs) = .ok r ∧ ∀ d, d ∈ r ↔ ∀ q ∈ qs, d ∈ R q :=
+  apply_and cat qs hne R hR
+
+/-- Or = union of the operands' answers. -/
+theorem c04_or (cat : Catalog) (qs : List Q) (hne : qs ≠ []) (R : Q → IdSet)
+    (hR : ∀ q ∈ qs, applyQ cat q = .ok (R q)) :
+    ∃ r, applyQ cat (.or qs) = .ok r ∧ ∀ d, d ∈ r ↔ ∃ q ∈ qs, d ∈ R q :=
+  apply_or cat qs hne R hR
+
+/-- Every query whose comparators are implemented by their index classes has an answer
+(nesting depth and arity arbitrary). -/
+theorem c04_well_typed_succeeds (cat : Catalog) (q : Q) (hw : wellTyped cat q = true) :
+    ∃ r, applyQ cat q = .ok r := applyQ_ok cat _ q (Nat.le_refl _) hw
+
+/-- The operators `&` / `|` and the constructors `And(..)` / `Or(..)` promote operands of the
+same type one level (`BoolOp.__init__`); the answer is that of the unflattened tree. -/
+theorem c04_and_constructor (cat : Catalog) (qs : List Q) (hne : qs ≠ [])
+    (hall : ∀ q ∈ qs, wellTyped cat q = true) (d : Int) :
+    d ∈ val cat (mkAnd qs) ↔ ∀ q ∈ qs, d ∈ val cat q := val_mkAnd hne hall d
+
+theorem c04_or_constructor (cat : Catalog) (qs : List Q) (hne : qs ≠ [])
+    (hall : ∀ q ∈ qs, wellTyped cat q = true) (d : Int) :
+    d ∈ val cat (mkOr qs) ↔ ∃ q ∈ qs, d ∈ val cat q := val_mkOr hne hall d
+
+/-- `Not(q)` is executed as `q.negate()`: the two are equivalent by construction. -/
+theorem c04_not_is_negate (cat : Catalog) (q : Q) : applyQ cat (.not q) = applyQ cat (negate q) :=
+  applyQ_not cat q
+
+/-- **Complement clause.** When every document supplies a value to every index (`Total`), `Not(q)` –
+at any depth inside `q`, including `Not` of `And`/`Or`/`Not`, and as the outermost node – returns
+exactly the catalog's documents that `q` does not return.
+
+`wellTypedStrict` = every comparator is implemented by its index class and the tree has no
+`All`/`NotAll`: for those the code violates the clause (`c04_notall_violates_complement`, finding
+D2).  Full statement: the same with `wellTyped` in place of `wellTypedStrict`. -/
+theorem c04_complement_partial (cat : Catalog) (ht : Total cat) (q : Q)
+    (hw : wellTypedStrict cat q = true) (r r' : IdSet)
+    (hq : applyQ cat q = .ok r) (hn : applyQ cat (.not q) = .ok r') :
+    ∀ d, d ∈ r' ↔ d ∈ docs cat ∧ d ∉ r := by
+  intro d
+  have h := val_negate ht _ q (Nat.le_refl _) hw d
+  rw [← val_not] at h
+  simpa [val, hq, hn] using h
+
+/-- … and `q.negate()` is equivalent to `Not(q)` in the same sense. -/
+theorem c04_negate_complement_partial (cat : Catalog) (ht : Total cat) (q : Q)
+    (hw : wellTypedStrict cat q = true) (d : Int) :
+    d ∈ val cat (negate q) ↔ d ∈ docs cat ∧ d ∉ val cat q :=
+  val_negate ht _ q (Nat.le_refl _) hw d
+
+/-- Finding D2, proved on a witness: through the query object, `NotAll` returns the *positive*
+`All` answer, so `Not(All(..))` is not the complement.  Keyword index {1:[1,2], 2:[2], 3:[3]}. -/
+theorem c04_notall_violates_complement :
+    let cat : Catalog := [.keyword [(1, some [1, 2]), (2, some [2]), (3, some [3])]]
+    applyQ cat (.cmp .all 0 (.many [1, 2])) = .ok [1] ∧
+    applyQ cat (.not (.cmp .all 0 (.many [1, 2]))) = .ok [1] ∧
+    docs cat = [3, 2, 1] := ⟨rfl, rfl, rfl⟩
+
+/-! non-vacuity: a Total catalog (field + keyword), a strict well-typed tree with nested Not -/
+example :
+    let cat : Catalog := [.field [(1, some 5), (2, some 7)], .keyword [(1, some [1]), (2, some [1, 2])]]
+    let q : Q := .not (.and [.cmp .gt 0 (.one 4), .not (.or [.cmp .eq 1 (.one 2), .cmp .lt 0 (.one 3)])])
+    wellTypedStrict cat q = true ∧ applyQ cat q = .ok [2] ∧
+      applyQ cat (.not q) = .ok [1] := ⟨rfl, rfl, rfl⟩
 
 end Hyp.Query
